@@ -1568,6 +1568,26 @@ def sx_contains(c, x):
 _FMT_SUB = None
 
 
+ALLOC_LIMIT = [None]
+
+
+def sx_mul(a, b):
+    """a * b; a sequence repeated n times is an allocation request of len * n items: checked against the allocation limit a
+    harness may set (termination / resource checks), for every feasible n when n is symbolic"""
+    lim = ALLOC_LIMIT[0]
+    if lim is not None:
+        seq, n = (a, b) if isinstance(a, (bytes, bytearray, str, list, tuple)) else ((b, a) if isinstance(b, (bytes, bytearray, str, list, tuple)) else (None, None))
+        if seq is not None and len(seq):
+            if type(n) is SymInt:
+                if n * len(seq) > lim:          # forks: on the feasible side the request exceeds the limit
+                    from symx.api import AllocBudgetExceeded
+                    raise AllocBudgetExceeded('%d x n' % len(seq))
+            elif isinstance(n, int) and n * len(seq) > lim:
+                from symx.api import AllocBudgetExceeded
+                raise AllocBudgetExceeded(n * len(seq))
+    return a * b
+
+
 def sx_mod(a, b):
     if isinstance(a, (str, bytes)) and not isinstance(a, SymStr):
         def ren(v):
